@@ -130,10 +130,12 @@ func (s *Sys) execFault(op []string) string {
 			verdict = "writefailedok"
 		}
 		_ = sys.tree.Close()
-		if verdict == "" && inj > 0 && isWriteOp(op) {
+		// the database left behind is examined also when the failed write went unreported
+		verdict2 := ""
+		if (verdict == "" || verdict == "writefailedok") && inj > 0 && isWriteOp(op) {
 			t2, err := s.openOn(sys.base, fast)
 			if err != nil {
-				verdict = "reopenerr"
+				verdict2 = "reopenerr"
 			} else {
 				d := view(dumpTree(t2))
 				_ = t2.Close()
@@ -141,11 +143,14 @@ func (s *Sys) execFault(op []string) string {
 					if os.Getenv("VERIF_DEBUG") != "" {
 						fmt.Fprintf(os.Stderr, "DEBUG fault %v at %d/%d kind=%s\nOLD %s\nNEW %s\nGOT %s\n", op, i, n, kind, oldD, newD, d)
 					}
-					verdict = "reopenmixture"
+					verdict2 = "reopenmixture"
 				}
 			}
 		}
-		if verdict != "" {
+		for _, verdict := range []string{verdict, verdict2} {
+			if verdict == "" {
+				continue
+			}
 			seen := false
 			for _, k := range vkinds {
 				if k == verdict {
